@@ -44,6 +44,7 @@ func runC19(c *Ctx, r *Report) {
 			}
 		}
 	}
+	c19Selection(c, r)
 	r.set("generator_functions", nFuncs)
 	r.set("map_ranges", n)
 	r.need("map ranges in the generator", n, 6)
@@ -379,4 +380,132 @@ func countGP(b *ast.BlockStmt) int {
 		}
 	}
 	return n
+}
+
+// c19Selection: the product-profile selection is an input. (a) Nothing in the generator writes
+// the example column of a workbook row (a row is a []string; the column index is the constant
+// mEXAMPLE): whether a row is generated is decided by the workbook alone. (b) Generating must not
+// panic for a selection the shipped workbooks do not contain: a pointer fetched from a map without
+// the comma-ok form is nil for a missing key, so it may be dereferenced only under a nil test.
+func c19Selection(c *Ctx, r *Report) {
+	ex, okEx := c.constInt(c.pkgs[genPath], "mEXAMPLE")
+	if !okEx {
+		r.fail("C19-R2-selection-readonly", "mEXAMPLE", "", "column constant not found")
+		return
+	}
+	nStores, nLookups := 0, 0
+	for _, fn := range c.moduleFuncs() {
+		if fnPkgPath(fn) != genPath && fnPkgPath(fn) != mainPath {
+			continue
+		}
+		if strings.HasSuffix(c.fset.Position(fn.Pos()).Filename, "_test.go") {
+			continue
+		}
+		idxL := 0
+		for _, b := range fn.Blocks {
+			for _, ins := range b.Instrs {
+				switch n := ins.(type) {
+				case *ssa.Store:
+					ia, ok := n.Addr.(*ssa.IndexAddr)
+					if !ok {
+						continue
+					}
+					sl, ok := ia.X.Type().Underlying().(*types.Slice)
+					if !ok {
+						continue
+					}
+					if bt, ok := sl.Elem().Underlying().(*types.Basic); !ok || bt.Kind() != types.String {
+						continue
+					}
+					nStores++
+					if k, ok := ia.Index.(*ssa.Const); ok && k.Value != nil && k.Int64() == ex {
+						r.fail("C19-R2-selection-readonly", fn.Name()+"/"+stripAddrs(pathOf(ia)), c.pos(n.Pos()), "the example column (product-profile selection) of a workbook row is overwritten: code is generated for a row the profile disabled (or not generated for one it enabled)")
+					}
+				case *ssa.Lookup:
+					mt, ok := n.X.Type().Underlying().(*types.Map)
+					if !ok {
+						continue
+					}
+					if _, isPtr := mt.Elem().Underlying().(*types.Pointer); !isPtr {
+						continue
+					}
+					nLookups++
+					key := fmt.Sprintf("%s/lookup-%s#%d", fn.Name(), stripAddrs(pathOf(n.X)), idxL)
+					idxL++
+					// sorted-keys idiom: the keys were collected by ranging over this very map in this function
+					sameMapRanged := false
+					for _, b2 := range fn.Blocks {
+						for _, i2 := range b2.Instrs {
+							if rg, ok := i2.(*ssa.Range); ok && stripAddrs(pathOf(rg.X)) == stripAddrs(pathOf(n.X)) {
+								if _, isIdx := n.Index.(*ssa.UnOp); isIdx { // key is an element loaded from the key slice
+									sameMapRanged = true
+								}
+							}
+						}
+					}
+					if sameMapRanged {
+						r.ok("C19-R3-lookup-nil", key, c.pos(n.Pos()), "key taken from the keys collected by ranging over the same map in this function (present by construction)")
+						continue
+					}
+					var val ssa.Value = n
+					var okFlag ssa.Value
+					if n.CommaOk {
+						val = nil
+						for _, ref := range *n.Referrers() {
+							if e, ok := ref.(*ssa.Extract); ok {
+								if e.Index == 0 {
+									val = e
+								} else {
+									okFlag = e
+								}
+							}
+						}
+					}
+					if val == nil {
+						r.ok("C19-R3-lookup-nil", key, c.pos(n.Pos()), "value unused")
+						continue
+					}
+					bad := ""
+					for _, ref := range *val.Referrers() {
+						var at *ssa.BasicBlock
+						switch u := ref.(type) {
+						case *ssa.FieldAddr:
+							at = u.Block()
+						case *ssa.UnOp:
+							if u.Op == token.MUL {
+								at = u.Block()
+							}
+						case *ssa.Call:
+							if u.Common().IsInvoke() {
+								continue
+							}
+							if f := u.Common().StaticCallee(); f != nil && f.Signature.Recv() != nil && len(u.Common().Args) > 0 && u.Common().Args[0] == val {
+								at = u.Block() // method call on a possibly nil receiver
+							}
+						}
+						if at == nil {
+							continue
+						}
+						guarded := domByBoolEdge(fn, at, true, func(v ssa.Value) bool {
+							if okFlag != nil && v == okFlag {
+								return true
+							}
+							bo, ok := v.(*ssa.BinOp)
+							return ok && bo.Op == token.NEQ && bo.X == val && isNilConst(bo.Y)
+						}) || domByBoolEdge(fn, at, false, func(v ssa.Value) bool {
+							bo, ok := v.(*ssa.BinOp)
+							return ok && bo.Op == token.EQL && bo.X == val && isNilConst(bo.Y)
+						})
+						if !guarded {
+							bad = c.pos(ref.Pos())
+						}
+					}
+					r.check(bad == "", "C19-R3-lookup-nil", key, c.pos(n.Pos()), "dereferenced only under a nil / comma-ok test", "a pointer fetched from a map is dereferenced at "+bad+" without a nil or comma-ok test: for a product profile in which the key is absent (a disabled row) the generator panics instead of exiting successfully")
+				}
+			}
+		}
+	}
+	r.set("string_slice_element_stores", nStores)
+	r.set("pointer_map_lookups", nLookups)
+	r.ok("C19-R2-selection-readonly", "scan", "", fmt.Sprintf("%d stores into []string elements in the generator: none into the example column", nStores))
 }
